@@ -123,17 +123,15 @@ class Symbols:
 
 
 def short(name, n=150):
+    import hashlib
     name = name.replace('"', "'").replace("\\", "/")
-    return name if len(name) <= n else name[:n - 12] + "...#" + format(abs(hash(name)) % 10 ** 6, "06d")
+    return name if len(name) <= n else name[:n - 20] + "...#" + hashlib.sha1(name.encode()).hexdigest()[:8]
 
 
 def annotate_fp(ev, sym):
     """static byte differences [call, off, len] -> records {call, sym, gfor, off, len} (one per overlapping symbol)"""
     sw = []
-    import hashlib
-    def sname(name):
-        name = name.replace('"', "'").replace("\\", "/")
-        return name if len(name) <= 150 else name[:130] + "...#" + hashlib.sha1(name.encode()).hexdigest()[:8]
+    sname = short
     for call, off, ln in ev["s"]:
         hits = sym.at(off, ln)
         if not hits:
@@ -221,12 +219,14 @@ def scenarios(fps):
                 shapes.append(sh)
         distinct = []
         seen = []
+        fp_of = {}
         for f in fpl:
             sig = [(s["k"], s["loc"]) for s in f["steps"]]
             if sig not in seen:
                 seen.append(sig)
                 distinct.append(f)
-        scen.append(dict(classes=[ev["cls"] for ev in evs], footprints=distinct, shape=json.dumps(sorted(shapes)),
+            fp_of[f["name"]] = seen.index(sig)
+        scen.append(dict(classes=[ev["cls"] for ev in evs], footprints=distinct, fp_of=fp_of, shape=json.dumps(shapes),
                          writes=any(ev["w"] for ev in evs) or any(s["k"] in ("Lazy", "W") for f in fpl for s in f["steps"])))
     return scen
 
@@ -240,11 +240,11 @@ def parse_violation(out):
     return None
 
 
-def tlc_model(cfg, workdir, env=None, dump=None, workers=2, timeout=540):
+def tlc_model(cfg, workdir, env=None, dump=None, workers=2, timeout=540, module="ConstOps"):
     extra = ["-noGenerateSpecTE"]
     if dump:
         extra += ["-dumpTrace", "json", dump]
-    r = V.run_tlc("ConstOps", cfg, workdir, env=env, workers=workers, timeout=timeout, extra=extra, xmx="3g")
+    r = V.run_tlc(module, cfg, workdir, env=env, workers=workers, timeout=timeout, extra=extra, xmx="3g")
     out = r["out"]
     viol = parse_violation(out)
     ok = r["rc"] == 0 and "No error has been found" in out
@@ -266,32 +266,89 @@ def schedule_from_dump(path):
     return sched
 
 
+def tla_str(x):
+    return '"' + x.replace("\\", "/").replace('"', "'") + '"'
+
+
+def write_env_module(sc, idx, workdir):
+    """the recorded footprints as a TLA+ module next to generated cfgs (TLC finds ConstOps through TLA-Library)"""
+    name = f"ConstOpsEnv_{os.getpid()}_{idx}"
+    fps = ",\n  ".join(
+        "[name |-> %s, steps |-> <<%s>>]" % (tla_str(f["name"]), ", ".join("[k |-> %s, loc |-> %s]" % (tla_str(s["k"]), tla_str(s["loc"])) for s in f["steps"]))
+        for f in sc["footprints"])
+    with open(os.path.join(workdir, name + ".tla"), "w") as fh:
+        fh.write(f"---- MODULE {name} ----\n\\* footprints recorded from the real code by harness/conc.cpp --phase fp (generated)\nEXTENDS ConstOps\n"
+                 f"FpRecorded == <<\n  {fps} >>\n====\n")
+    cfgs = {}
+    for key, nt, invs, props in (("race2", 2, "TypeOK NoRace Deterministic", "PROPERTIES Finishes\n"), ("det2", 2, "TypeOK Deterministic", ""),
+                                 ("all3", 3, "TypeOK NoRace Deterministic", "")):
+        cp = os.path.join(workdir, f"{name}_{key}.cfg")
+        with open(cp, "w") as fh:
+            fh.write(f"SPECIFICATION Spec\nCONSTANTS\n  NThreads = {nt}\n  NInst = 2\n  Footprints <- FpRecorded\nINVARIANTS {invs}\n{props}")
+        cfgs[key] = cp
+    return os.path.join(workdir, name), cfgs
+
+
+def has_writes(f):
+    return any(st["k"] in ("W", "Lazy") for st in f["steps"])
+
+
 def run_scenario(sc, idx, threads, workdir):
-    """returns dict(norace, det, runs=[...], schedule_race, schedule_det)"""
-    fpath = os.path.join(workdir, f"footprints_{idx}.json")
-    with open(fpath, "w") as fh:
-        json.dump(sc["footprints"], fh)
-    env = {"FOOTPRINTS": fpath}
-    res = dict(norace="ok", det="ok", runs=[], schedule_race=None, schedule_det=None)
+    """TLC on the recorded footprints of one group of classes (shared root type).
+    returns dict(norace, det, per_fp=[verdict per distinct footprint], runs=[...], schedule_race, schedule_det)"""
+    env = {"JAVA_TOOL_OPTIONS": f"-DTLA-Library={V.SPEC}"}
+    res = dict(norace="ok", det="ok", runs=[], schedule_race=None, schedule_det=None, per_fp=["ok"] * len(sc["footprints"]))
+
+    def rec(key, r, viol):
+        res["runs"].append({"cfg": f"recorded footprints, {key}", "violated": viol, "states": r["states"], "distinct": r["distinct"], "depth": r["depth"]})
+
+    def passing(sub, tag, what):
+        mod, cfgs = write_env_module(sub, f"{idx}{tag}", workdir)
+        r, viol = tlc_model(cfgs["race2"], workdir, env=env, module=mod)
+        rec(f"{what}, 2 threads x 2 instances: TypeOK NoRace Deterministic Finishes", r, viol)
+        if viol:
+            return viol, r
+        if 3 in threads:
+            r3, viol3 = tlc_model(cfgs["all3"], workdir, env=env, workers=4, module=mod)
+            rec(f"{what}, 3 threads x 2 instances: TypeOK NoRace Deterministic", r3, viol3)
+            if viol3:
+                raise V.ToolFailure(f"ConstOps 3 threads violated {viol3} although 2 threads passed: {sc['classes'][:3]}")
+        return None, r
+
+    mod, cfgs = write_env_module(sc, idx, workdir)
     d2 = os.path.join(workdir, f"cex_{idx}_race.json")
-    r, viol = tlc_model("ConstOps_env2.cfg", workdir, env=env, dump=d2)
-    res["runs"].append({"cfg": "ConstOps_env2.cfg", "violated": viol, "states": r["states"], "distinct": r["distinct"], "depth": r["depth"]})
+    r, viol = tlc_model(cfgs["race2"], workdir, env=env, dump=d2, module=mod)
+    rec("all operations of the group, 2 threads x 2 instances: TypeOK NoRace Deterministic Finishes", r, viol)
     if viol == "NoRace":
         res["norace"] = "violated"
         res["schedule_race"] = schedule_from_dump(d2)
         d3 = os.path.join(workdir, f"cex_{idx}_det.json")
-        r2, viol2 = tlc_model("ConstOps_env2_det.cfg", workdir, env=env, dump=d3)
-        res["runs"].append({"cfg": "ConstOps_env2_det.cfg", "violated": viol2, "states": r2["states"], "distinct": r2["distinct"], "depth": r2["depth"]})
+        r2, viol2 = tlc_model(cfgs["det2"], workdir, env=env, dump=d3, module=mod)
+        rec("all operations of the group, 2 threads x 2 instances: Deterministic only", r2, viol2)
         if viol2 == "Deterministic":
             res["det"] = "violated"
             res["schedule_det"] = schedule_from_dump(d3)
         elif viol2:
-            raise V.ToolFailure(f"ConstOps_env2_det: unexpected {viol2}")
+            raise V.ToolFailure(f"ConstOps (Deterministic only): unexpected {viol2}")
+        # which operations take part: every writing operation on its own must race, the write-free rest must pass
+        rest = [f for f in sc["footprints"] if not has_writes(f)]
+        for j, f in enumerate(sc["footprints"]):
+            if has_writes(f):
+                m1, c1 = write_env_module({"footprints": [f]}, f"{idx}w{j}", workdir)
+                r1, v1 = tlc_model(c1["race2"], workdir, env=env, module=m1)
+                rec(f"{f['name']} alone, 2 threads x 2 instances", r1, v1)
+                res["per_fp"][j] = "violated" if v1 == "NoRace" else "ok"
+                if v1 and v1 != "NoRace":
+                    raise V.ToolFailure(f"ConstOps on {f['name']}: {v1} violated without a race")
+        if rest:
+            v, rr = passing({"footprints": rest}, "r", "write-free operations of the group")
+            if v:
+                raise V.ToolFailure(f"ConstOps on the write-free operations of {sc['classes'][:3]}: {v} violated - modelling error:\n{rr['out'][-1200:]}")
     elif viol:
         raise V.ToolFailure(f"ConstOps on recorded footprints {sc['classes'][:3]}: {viol} violated without a race - modelling error:\n{r['out'][-1200:]}")
     elif 3 in threads:
-        r3, viol3 = tlc_model("ConstOps_env3.cfg", workdir, env=env, workers=4)
-        res["runs"].append({"cfg": "ConstOps_env3.cfg", "violated": viol3, "states": r3["states"], "distinct": r3["distinct"], "depth": r3["depth"]})
+        r3, viol3 = tlc_model(cfgs["all3"], workdir, env=env, workers=4, module=mod)
+        rec("all operations of the group, 3 threads x 2 instances: TypeOK NoRace Deterministic", r3, viol3)
         if viol3:
             raise V.ToolFailure(f"ConstOps 3 threads violated {viol3} although 2 threads passed: {sc['classes'][:3]}")
     return res
@@ -358,10 +415,28 @@ def run_class(exes, part, cls, san, T, N, seed, workdir, tag):
     if san == "tsan":
         env = {"TSAN_OPTIONS": f"log_path={logp} halt_on_error=0 exitcode=0 report_thread_leaks=0 history_size=4"}
     run([exe, "--phase", "ref"] + common + ["--out", refp], tmo, env)
-    run([exe, "--phase", "obs"] + common + ["--out", obsp], tmo, env)
-    evs = read_events(refp) + read_events(obsp)
-    if len(evs) != 2 * T:
-        raise V.ToolFailure(f"{cls}: expected {2 * T} ref/obs events, got {len(evs)}")
+    evs = read_events(refp)
+    if len(evs) != T:
+        raise V.ToolFailure(f"{cls}: expected {T} ref events, got {len(evs)}")
+    # the sequential run of exactly these instances completed; an abnormal end of the concurrent run is an observation
+    e = dict(os.environ)
+    if env:
+        e.update(env)
+    cmd = [exe, "--phase", "obs"] + common + ["--out", obsp]
+    try:
+        r = subprocess.run(cmd, capture_output=True, text=True, timeout=tmo, env=e)
+    except subprocess.TimeoutExpired:
+        raise V.ToolFailure(f"timeout: {' '.join(cmd)}")
+    if r.returncode != 0:
+        if r.returncode > 0 and r.returncode != 3:
+            raise V.ToolFailure(f"harness failed rc={r.returncode}: {' '.join(cmd)}\n{r.stderr[-1500:]}")
+        msg = (r.stderr.strip().splitlines() or ["-"])[-1][:200].replace('"', "'")
+        evs.append({"op": "crash", "cls": cls, "part": part, "T": T, "N": evs[0]["N"], "san": san, "rc": r.returncode, "msg": msg})
+    else:
+        obs = read_events(obsp)
+        if len(obs) != T:
+            raise V.ToolFailure(f"{cls}: expected {T} obs events, got {len(obs)}")
+        evs += obs
     if san == "tsan":
         d = os.path.dirname(logp)
         seen = set()
@@ -381,7 +456,8 @@ def run_class(exes, part, cls, san, T, N, seed, workdir, tag):
                     evs.append(rep)
                 os.remove(os.path.join(d, fn))
     for p in (refp, obsp):
-        os.remove(p)
+        if os.path.exists(p):
+            os.remove(p)
     return evs
 
 
@@ -501,7 +577,8 @@ def _check(oc, prop, tier, seed, replay, workdir):
                 for c in sc["classes"]:
                     if only and c != only:
                         continue
-                    model_ev[part].append({"op": "model", "cls": c, "part": part, "norace": res["norace"], "det": res["det"],
+                    verdict = res["per_fp"][sc["fp_of"][c]]
+                    model_ev[part].append({"op": "model", "cls": c, "part": part, "norace": verdict, "det": res["det"] if verdict != "ok" else "ok",
                                            "nfoot": len(sc["footprints"]),
                                            "schedule": json.dumps(res["schedule_race"]) if res["schedule_race"] else "-"})
                 if "man.sub.gate.rplus" in sc["classes"]:
@@ -563,7 +640,7 @@ def _check(oc, prop, tier, seed, replay, workdir):
                 if b["clause"].startswith("TOOL."):
                     raise V.ToolFailure(f"recording / binding problem: {b2}")
                 payload = {"family": "conc", "cls": ev.get("cls"), "part": p, "event_op": ev["op"], "seed": seed}
-                if ev["op"] in ("obs", "race"):
+                if ev["op"] in ("obs", "race", "crash"):
                     n_req = next((N for s_, T_, N in plan["runs"] if s_ == ev.get("san") and T_ == ev.get("T")), ev.get("N"))
                     payload["run"] = [ev.get("san"), ev.get("T"), n_req]
                 if ev["op"] == "sched":
@@ -590,7 +667,7 @@ def _check(oc, prop, tier, seed, replay, workdir):
                 miss.append(f"model|{c}")
             for san, T, N in plan["runs"]:
                 for op in ("ref", "obs"):
-                    if oc.cov.get(f"{op}|{c}|{san}|T{T}", 0) != T:
+                    if oc.cov.get(f"{op}|{c}|{san}|T{T}", 0) != T and not (op == "obs" and oc.cov.get(f"crash|{c}|{san}|T{T}", 0) == 1):
                         miss.append(f"{op}|{c}|{san}|T{T}")
         if oc.cov.get("sched|man.sub.gate.rplus", 0) < 6:
             miss.append("sched")
